@@ -279,6 +279,14 @@ def new_version(data, allow_custom=None, **kwargs):
 
     new_obj_inner.update(kwargs)
 
+    # A change given via "custom_properties" replaces the old value as well
+    # (the constructor prefers a keyword argument to custom_properties).
+    if isinstance(data, stix2.base._STIXBase) and \
+            isinstance(kwargs.get("custom_properties"), Mapping):
+        for prop in kwargs["custom_properties"]:
+            if prop not in kwargs:
+                new_obj_inner.pop(prop, None)
+
     # Set allow_custom appropriately if versioning an object.  We will ignore
     # it for dicts.
     if isinstance(data, stix2.base._STIXBase):
